@@ -23,10 +23,9 @@ theorem unsolved_expr_raises (w : World) (s : EvalSt) (hs : s.Unsolved) (h : Nat
     (he : w.exs[h]? = some e) (hm : MentionsLeaf e) :
     evalExpr w s h = .error .valueError := by
   unfold evalExpr
-  rw [hs.2.1]
-  simp only [List.lookup, he]
+  simp only [he]
   by_cases hl : e.leaf.isSome = true
-  · simp [hl]
+  · simp [hl, hs.2.1, List.lookup]
   · simp only [hl, Bool.false_eq_true, if_false, last_of_unsolved s hs]
     rcases hm with hm | ⟨kc, hkc, hne⟩
     · exact absurd hm hl
@@ -44,8 +43,7 @@ theorem unsolved_cons_raises (w : World) (s : EvalSt) (hs : s.Unsolved) (h : Nat
     (e : EObj) (hc : w.cons[h]? = some c) (he : w.exs[c.e]? = some e) (hm : MentionsLeaf e) :
     evalCons w s h = .error .valueError := by
   unfold evalCons
-  rw [hs.2.2.1]
-  simp only [List.lookup, hc, unsolved_expr_raises w s hs c.e e he hm]
+  simp only [hc, unsolved_expr_raises w s hs c.e e he hm]
 
 /-- duals: `eval_dual` before any solve raises `ValueError` -/
 theorem unsolved_dual_raises (s : EvalSt) (hs : s.Unsolved) (h : Nat) :
